@@ -288,7 +288,11 @@ def gen_sequence(rng, n):
 
 def run_sequence_impl(calls):
     """Returns a canonical observation or ('error', class)."""
-    op = new_loft()
+    orig = new_loft()
+    # every third sequence (decided by the sequence itself) is executed on a COPY of the loft, taken before the first call:
+    # the calls affect exactly the addressed side/edge/corner of the operation they are made on, and the original stays bare
+    on_copy = sum(len(str(x)) for c in calls for x in c) % 3 == 0
+    op = orig.copy() if on_copy else orig
     # a label may be given as a string or as a list of strings; in half of the sequences (decided by the sequence itself,
     # so that replays agree) every call naming a geometry is handed ONE list object per geometry, reused from call to call,
     # as a user's loop over corner pairs would do: what one call does with it must not leak into another edge or corner
@@ -309,6 +313,10 @@ def run_sequence_impl(calls):
             elif c[0] == "project_corner":
                 op.project_corner(c[1], lab(c[2]))
         ob = observe(op)
+        if on_copy:
+            bare = observe(orig)
+            if bare["patches"] or bare["faces"] or bare["vproj"] or any(l for (_a, _b, _k, l) in bare["edges"]):
+                return ("error", "LeakToOriginal")
     except GenError:
         raise
     except Exception as e:
